@@ -149,28 +149,35 @@ pub fn verif_slice_tail_mut(s: &mut [u8], a: usize) -> (r: &mut [u8])           
 { &mut s[a..] }
 impl Inner {
     pub uninterp spec fn wire_out(&self) -> Seq<u8>;       // ghost: every byte handed to the transport so far, in order
+    pub uninterp spec fn wire_in(&self) -> Seq<u8>;        // ghost: the bytes the transport has still to deliver, in order
     // A4 (tokio AsyncRead): Ready(Ok(n)) wrote n <= buf.len() bytes to the front of buf; n == 0 with a NON-EMPTY buf means EOF.
     // Polling with an empty buffer cannot distinguish EOF, hence the precondition ("no false end-of-stream").
     #[verifier::external_body]
     pub fn poll_read_into(&mut self, cx: &mut Cx, buf: &mut [u8]) -> (r: std::task::Poll<Result<usize, IoError>>)
         requires old(buf)@.len() > 0,
         ensures final(buf)@.len() == old(buf)@.len(), final(self).wire_out() == old(self).wire_out(),
-                r matches std::task::Poll::Ready(Ok(n)) ==> n <= old(buf)@.len(),
+                r matches std::task::Poll::Ready(Ok(n)) ==> n <= old(buf)@.len() && n <= old(self).wire_in().len()
+                    // the transport delivers its byte stream in order, without loss or duplication (A4)
+                    && final(buf)@.subrange(0, n as int) == old(self).wire_in().subrange(0, n as int)
+                    && final(self).wire_in() == old(self).wire_in().subrange(n as int, old(self).wire_in().len() as int),
+                !(r matches std::task::Poll::Ready(Ok(_))) ==> final(self).wire_in() == old(self).wire_in(),
     { unimplemented!() }
     // A4 (tokio AsyncWrite): Ready(Ok(n)) accepted exactly the first n <= buf.len() bytes
     #[verifier::external_body]
     pub fn poll_write(&mut self, cx: &mut Cx, buf: &[u8]) -> (r: std::task::Poll<Result<usize, IoError>>)
         ensures r matches std::task::Poll::Ready(Ok(n)) ==> n <= buf@.len() && final(self).wire_out() == old(self).wire_out() + buf@.subrange(0, n as int),
                 r matches std::task::Poll::Pending ==> final(self).wire_out() == old(self).wire_out(),
+                final(self).wire_in() == old(self).wire_in(),
     { unimplemented!() }
     #[verifier::external_body]
     pub fn poll_flush(&mut self, cx: &mut Cx) -> (r: std::task::Poll<Result<(), IoError>>)
-        ensures final(self).wire_out() == old(self).wire_out() { unimplemented!() }
+        ensures final(self).wire_out() == old(self).wire_out(), final(self).wire_in() == old(self).wire_in() { unimplemented!() }
     #[verifier::external_body]
     pub fn poll_shutdown(&mut self, cx: &mut Cx) -> (r: std::task::Poll<Result<(), IoError>>)
-        ensures final(self).wire_out() == old(self).wire_out() { unimplemented!() }
+        ensures final(self).wire_out() == old(self).wire_out(), final(self).wire_in() == old(self).wire_in() { unimplemented!() }
 }
-pub uninterp spec fn seal(n: Noise, plain: Seq<u8>) -> Seq<u8>;                           // A3: the AEAD ciphertext, opaque
+pub uninterp spec fn seal(n: Noise, plain: Seq<u8>) -> Seq<u8>;
+pub uninterp spec fn opened(n: Noise, cipher: Seq<u8>) -> Seq<u8>;                         // A3: the plaintext snow returns for a ciphertext, opaque                           // A3: the AEAD ciphertext, opaque
 impl Noise {
     // A3 (snow): Ok(n) => n = |payload| + 16 bytes written to the front of out; fails (no panic) if out is too small
     #[verifier::external_body]
@@ -183,7 +190,8 @@ impl Noise {
     #[verifier::external_body]
     pub fn read_message(&mut self, msg: &[u8], out: &mut [u8]) -> (r: Result<usize, NoiseError>)
         ensures final(out)@.len() == old(out)@.len(),
-                r matches Ok(m) ==> m + AUTHDATA_LEN == msg@.len() && m <= old(out)@.len(),
+                r matches Ok(m) ==> m + AUTHDATA_LEN == msg@.len() && m <= old(out)@.len()
+                    && final(out)@.subrange(0, m as int) == opened(*old(self), msg@),
     { unimplemented!() }
 }
 impl ReadBuf {
@@ -218,8 +226,53 @@ impl<'a> StreamProject<'a> {
         &&& self.write_buf.frame.content().len() <= MAX_FRAME_LEN
     }
 }
+impl<'a> StreamProject<'a> {
+    // the input not yet decrypted: what sits in the frame buffer followed by what the transport has still to deliver
+    pub open spec fn pending_in(&self) -> Seq<u8> { self.read_buf.frame.content() + self.inner.wire_in() }
+}
+// one frame (length prefix n, then n bytes of ciphertext) leaves the front of the undecoded input and `plain` is what it decrypts to
+pub open spec fn frame_consumed(pin_old: Seq<u8>, pin_new: Seq<u8>, noise_old: Noise, plain: Seq<u8>, n: int) -> bool {
+    &&& 0 <= n <= u16::MAX && pin_old.len() >= 2 + n && le16(n as u16) == pin_old.subrange(0, 2)
+    &&& plain == opened(noise_old, pin_old.subrange(2, 2 + n))
+    &&& pin_new == pin_old.subrange(2 + n, pin_old.len() as int)
+}
+// what poll_read_payload achieves: `p` is the plaintext available afterwards
+pub open spec fn payload_ready(pl_old: Seq<u8>, pin_old: Seq<u8>, noise_old: Noise, p: Seq<u8>, pin_new: Seq<u8>) -> bool {
+    if pl_old.len() > 0 { p == pl_old && pin_new == pin_old }                       // undelivered plaintext is never overwritten
+    else {
+        ||| p.len() == 0 && pin_new == pin_old                                      // end of stream: nothing consumed
+        ||| exists|n: int| frame_consumed(pin_old, pin_new, noise_old, p, n)        // exactly one frame decoded
+    }
+}
 // the frame that poll_flush_payload builds for a payload: 2-byte little-endian length, then the sealed payload
 pub open spec fn frame_of(n: Noise, plain: Seq<u8>) -> Seq<u8> { le16((plain.len() + AUTHDATA_LEN) as u16) + seal(n, plain) }
+"""
+
+LEMMA_FRAME = r"""
+// ---------------- C13, one frame end to end: what the writer framed is what the reader hands out ----------------
+// A1: u16::to_le_bytes is injective and yields 2 bytes.  A3 (snow AEAD): a ciphertext is 16 bytes longer than its plaintext, and a
+// reader state paired with the writer state (same key, same nonce) opens a sealed payload to that payload.
+pub axiom fn le16_props(a: u16, b: u16) ensures le16(a).len() == 2, le16(a) == le16(b) ==> a == b;
+pub uninterp spec fn paired(w: Noise, r: Noise) -> bool;
+pub axiom fn seal_props(w: Noise, r: Noise, p: Seq<u8>)
+    ensures seal(w, p).len() == p.len() + AUTHDATA_LEN, paired(w, r) ==> opened(r, seal(w, p)) == p;
+pub proof fn lemma_frame_roundtrip(w: Noise, rn: Noise, p: Seq<u8>, rest: Seq<u8>, pin_new: Seq<u8>, plain: Seq<u8>, n: int)
+    requires paired(w, rn), p.len() + AUTHDATA_LEN <= u16::MAX,
+             // the reader's undecoded input starts with the frame the writer built for p ...
+             frame_consumed(frame_of(w, p) + rest, pin_new, rn, plain, n),
+    // ... then the frame the reader consumes is exactly that one, it decrypts to p, and the following input is untouched
+    ensures plain == p, pin_new == rest, n == p.len() + AUTHDATA_LEN,
+{
+    let len = (p.len() + AUTHDATA_LEN) as u16;
+    let f = frame_of(w, p);
+    let pin = f + rest;
+    le16_props(len, n as u16);
+    seal_props(w, rn, p);
+    assert(pin.subrange(0, 2) =~= le16(len));
+    assert(n as u16 == len);
+    assert(pin.subrange(2, 2 + n) =~= seal(w, p));
+    assert(pin.subrange(2 + n, pin.len() as int) =~= rest);
+}
 """
 
 HS = [("this: &mut StreamProject<'_, S>", "this: &mut StreamProject<'_>"), ("cx: &mut Context<'_>", "cx: &mut Cx")]
@@ -246,12 +299,27 @@ def add_stream(U):
          loops={0: dict(prefix="loop", inv="""
             this.wf(),
             this.write_buf == old(this).write_buf, this.inner.wire_out() == old(this).inner.wire_out(),
-            this.read_buf.payload == old(this).read_buf.payload,
+            this.read_buf.payload == old(this).read_buf.payload, this.noise == old(this).noise,
+            this.pending_in() == old(this).pending_in(),
 """)},
+         post_subs=[("let n = ready!(this.inner.poll_read_into(", "let ghost verif_f0 = *this.read_buf; let ghost verif_w0 = this.inner.wire_in();   /* W-ghost */\n            let n = ready!(this.inner.poll_read_into("),
+                    ("this.read_buf.frame.extend(n);", """this.read_buf.frame.extend(n);
+            proof {
+                let e = verif_f0.frame.end as int;
+                assert(this.read_buf.frame.content() =~= verif_f0.frame.content() + verif_w0.subrange(0, n as int)) by {
+                    assert(this.read_buf.frame.inner@.subrange(0, e) == verif_f0.frame.inner@.subrange(0, e));
+                    assert forall|i: int| 0 <= i < n implies this.read_buf.frame.inner@[e + i] == verif_w0[i] by {
+                        assert(this.read_buf.frame.inner@.subrange(e, this.read_buf.frame.inner@.len() as int).subrange(0, n as int)[i] == verif_w0.subrange(0, n as int)[i]);
+                    }
+                }
+                assert(this.pending_in() =~= verif_f0.frame.content() + verif_w0);
+            }""")],
          spec="""
     requires old(this).wf(),
     ensures final(this).wf(), final(this).write_buf == old(this).write_buf, final(this).inner.wire_out() == old(this).inner.wire_out(),
-            final(this).read_buf.payload == old(this).read_buf.payload,
+            final(this).read_buf.payload == old(this).read_buf.payload, final(this).noise == old(this).noise,
+            // bytes only move from the transport to the end of the frame buffer: the undecoded input is conserved, in order
+            final(this).pending_in() == old(this).pending_in(),
             // a complete frame: its length prefix and n bytes of ciphertext are in the buffer
             r matches Poll::Ready(Ok(Some(n))) ==> final(this).read_buf.frame.content().len() >= LENGTH_FIELD_LEN + n
                 && le16(n as u16) == final(this).read_buf.frame.content().subrange(0, 2) && n <= u16::MAX,
@@ -259,22 +327,55 @@ def add_stream(U):
     U.fn(F_S, IMPL + " :: fn poll_read_payload", ret="r",
          header_subs=HS + [("Poll<io::Result<()>>", "Poll<Result<(), IoError>>")],
          subs=SELF + [("io::Error::new(io::ErrorKind::InvalidData, e)", "io_error()   /* R-errmsg */")],
+         post_subs=[("this.read_buf.payload.reset();", "this.read_buf.payload.reset();\n        let ghost verif_s1 = *this.read_buf; let ghost verif_w1 = this.inner.wire_in(); let ghost verif_n1 = *this.noise;   /* W-ghost */"),
+                    ("this.read_buf.payload.extend(m);", """this.read_buf.payload.extend(m);
+        proof {
+            let pin0 = verif_s1.frame.content() + verif_w1;
+            let fc = verif_s1.frame.content();
+            assert(pin0 == old(this).pending_in());
+            assert(pin0.subrange(0, 2) =~= fc.subrange(0, 2));
+            assert(pin0.subrange(2, 2 + n) =~= fc.subrange(2, 2 + n));
+            assert(this.pending_in() =~= pin0.subrange(2 + n, pin0.len() as int));
+            assert(this.read_buf.payload.content() =~= opened(verif_n1, pin0.subrange(2, 2 + n)));
+            assert(frame_consumed(old(this).pending_in(), this.pending_in(), *old(this).noise, this.read_buf.payload.content(), n as int));
+        }""")],
          spec="""
     requires old(this).wf(),
     ensures final(this).wf(), final(this).write_buf == old(this).write_buf, final(this).inner.wire_out() == old(this).inner.wire_out(),
+            // undelivered plaintext is never overwritten; otherwise end of stream (nothing consumed) or EXACTLY ONE frame leaves the
+            // front of the undecoded input and the plaintext buffer holds what it decrypts to
+            (r matches Poll::Ready(Ok(_))) ==> payload_ready(old(this).read_buf.payload.content(), old(this).pending_in(), *old(this).noise,
+                                                             final(this).read_buf.payload.content(), final(this).pending_in()),
+            // a failed or pending read consumes nothing
+            !(r matches Poll::Ready(Ok(_))) ==> final(this).pending_in() == old(this).pending_in(),
 """)
     U.fn(F_S, "impl<S> io::AsyncRead for Stream<S> where S: io::AsyncRead + io::AsyncWrite + Unpin, :: fn poll_read", ret="r",
          header_subs=[("self: Pin<&mut Self>", "this: &mut StreamProject<'_>   /* R-pin: self.project() */"), ("cx: &mut Context<'_>", "cx: &mut Cx"),
                       ("buf: &mut io::ReadBuf<'_>", "buf: &mut ReadBuf"), ("Poll<io::Result<()>>", "Poll<Result<(), IoError>>")],
          subs=SELF + [("let mut this = self.project();", ""), ("(&mut this, cx)", "(this, cx)"),
                       ("std::cmp::min(", "verif_min_usize(")],
+         post_subs=[("let n = verif_min_usize(", "let ghost verif_p = this.read_buf.payload.content(); let ghost verif_pin = this.pending_in();   /* W-ghost */\n        let n = verif_min_usize("),
+                    ("this.read_buf.payload.take(n);", """this.read_buf.payload.take(n);
+        proof {
+            assert(this.pending_in() == verif_pin);
+            assert(payload_ready(old(this).read_buf.payload.content(), old(this).pending_in(), *old(this).noise, verif_p, this.pending_in()));
+            assert(buf.filled() == old(buf).filled() + verif_p.subrange(0, n as int));
+            assert(this.read_buf.payload.content() == verif_p.subrange(n as int, verif_p.len() as int));
+        }""")],
          spec="""
     requires old(this).wf(),
     ensures final(this).wf(), final(this).write_buf == old(this).write_buf,
             // hands out exactly the next min(remaining, available) plaintext bytes, in order
             r matches Poll::Ready(Ok(_)) ==> final(buf).filled().len() <= old(buf).filled().len() + old(buf).rem()
                 && old(buf).filled().is_prefix_of(final(buf).filled()),
+            // no loss, duplication or reordering on the way to the caller: with p the plaintext available after (at most) one frame was
+            // decoded, the caller gets p's first k = min(remaining, |p|) bytes appended and the rest of p stays buffered
+            r matches Poll::Ready(Ok(_)) ==> exists|p: Seq<u8>| #[trigger] payload_ready(old(this).read_buf.payload.content(), old(this).pending_in(), *old(this).noise, p, final(this).pending_in())
+                && ({ let k = if old(buf).rem() <= p.len() { old(buf).rem() as int } else { p.len() as int };
+                      final(buf).filled() == old(buf).filled() + p.subrange(0, k) && final(this).read_buf.payload.content() == p.subrange(k, p.len() as int) }),
+            !(r matches Poll::Ready(Ok(_))) ==> final(this).pending_in() == old(this).pending_in() && final(buf).filled() == old(buf).filled(),
 """)
+    U.raw(LEMMA_FRAME, label="lemma one frame end to end", canary=True)
     U.fn(F_S, IMPL + " :: fn poll_flush_frame", ret="r",
          header_subs=HS + [("Poll<io::Result<()>>", "Poll<Result<(), IoError>>")],
          subs=[("Pin::new(&mut this.inner)", "this.inner   /* R-pin */"), ("io::ErrorKind::WriteZero.into()", "io_error()   /* R-errmsg */")],
